@@ -1,7 +1,8 @@
 (* Extraction of the C13 model to OCaml (ExtrOcamlBasic + ExtrOcamlString only; nat and Z stay inductive). *)
 From Coq Require Import Extraction ExtrOcamlBasic ExtrOcamlString.
-From Cb Require Import C13.Model C13.ModelSeq.
+From Cb Require Import C13.Model C13.ModelSeq C13.ModelNest.
 Extraction Language OCaml.
 Extraction "C13/c13_model.ml" m_run_a s_run_a safe_a m_run_q s_run_q safe_q m_run_t s_run_t safe_t
   classify build_err encode decode mech_match m_run_m s_run_m safe_m builtin_of_name
-  m_run_r s_run_r safe_r m_run_s s_run_s safe_s.
+  m_run_r s_run_r safe_r m_run_s s_run_s safe_s
+  m_run_l m_run_l_with s_run_l safe_l m_run_lt s_run_lt safe_lt m_run_lq s_run_lq safe_lq n_build n_decode l_kinds.
